@@ -190,6 +190,10 @@ pub enum Op {
     PeerRaw { bytes: Vec<u8> },
     /// peer frames are delivered in buffers of n bytes (0 = one frame per buffer)
     SetChunk { n: u16 },
+    /// role Any: play the other side of the protocol on the next connection
+    SwapSide,
+    /// regulate_for_store on a v5 PUBLISH (alias: 0 none, n = topic + alias, 0x80|n alias only)
+    Regulate { topic: u8, alias: u8 },
     /// the following connections are negotiated with / without properties and keep-alive
     SetAlt { on: bool },
     /// the following connections announce a tight Maximum Packet Size (v5.0) in both directions
@@ -232,6 +236,8 @@ pub struct Solo {
     /// the next connections announce no properties and keep-alive 0 (connection-scoped
     /// state of the previous connection must not fill the gaps)
     pub alt: u8,
+    /// which side of the protocol E plays on the next / current connection (role Any may alternate)
+    pub acting_client: bool,
 }
 
 impl Solo {
@@ -239,7 +245,8 @@ impl Solo {
         let mut w = Watch::new("E", cfg.role, cfg.ver, cfg.pid32, cfg.opts());
         w.lenient = cfg.lenient;
         w.vectored = cfg.vectored;
-        Solo {
+        let acting = cfg.as_client;
+        let mut s = Solo {
             cfg,
             w,
             inbox: vec![],
@@ -255,7 +262,10 @@ impl Solo {
             connects: 0,
             ops_done: 0,
             alt: 0,
-        }
+            acting_client: true,
+        };
+        s.acting_client = acting;
+        s
     }
 
     /// ids the application holds without having handed them to an accepted send
@@ -452,9 +462,9 @@ impl Solo {
                 }
                 let fresh = self.w.m.st == St::Disc;
                 let before = self.w.step;
-                if self.cfg.as_client {
+                if self.acting_client {
                     let evs = self.app_send(&p);
-                    if self.w.lenient && fresh && !self.w.failed() && !(evs.iter().any(|e| matches!(e, Ev::Send { pkt, .. } if pkt.kind == CONNECT)) && !evs.iter().any(|e| e.is_error())) {
+                    if self.w.lenient && fresh && self.w.ep.version() != 0 && !self.w.failed() && !(evs.iter().any(|e| matches!(e, Ev::Send { pkt, .. } if pkt.kind == CONNECT)) && !evs.iter().any(|e| e.is_error())) {
                         self.w.flag(&["C05", "C10"], "new-connection-refused-after-close", format!("send(CONNECT) on a closed connection object: {}", evs_short(&evs)));
                     }
                 } else {
@@ -477,7 +487,7 @@ impl Solo {
                     return;
                 }
                 // a CONNACK that no CONNECT asked for is outside every statement
-                if self.cfg.as_client && self.w.m.st == St::Disc && !self.cfg.lenient {
+                if self.acting_client && self.w.m.st == St::Disc && !self.cfg.lenient {
                     return;
                 }
                 let mut p = self.cfg.connack_pkt(*sp, *rc);
@@ -488,7 +498,7 @@ impl Solo {
                     p.props.push(Prop::MaxPacketSize(TIGHT_MPS));
                 }
                 let was = self.w.m.st;
-                if self.cfg.as_client {
+                if self.acting_client {
                     self.peer_send(&p);
                 } else {
                     self.app_send(&p);
@@ -639,7 +649,7 @@ impl Solo {
             }
             Op::PeerPub { qos, id, dup, topic, alias, pad } => {
                 // a server never sends before its CONNACK; a client may pipeline after CONNECT
-                if !self.peer_up() || (self.cfg.as_client && self.w.m.st != St::Connected && !self.cfg.lenient) {
+                if !self.peer_up() || (self.acting_client && self.w.m.st != St::Connected && !self.cfg.lenient) {
                     return;
                 }
                 let mut p = Pkt::new(v, PUBLISH);
@@ -669,7 +679,7 @@ impl Solo {
                 self.peer_send(&p);
             }
             Op::PeerPubrel { id } => {
-                if !self.peer_up() || (self.cfg.as_client && self.w.m.st != St::Connected && !self.cfg.lenient) {
+                if !self.peer_up() || (self.acting_client && self.w.m.st != St::Connected && !self.cfg.lenient) {
                     return;
                 }
                 self.peer_q2.retain(|x| x != id);
@@ -850,7 +860,7 @@ impl Solo {
                 self.fault("crash_restart");
             }
             Op::PeerRaw { bytes } => {
-                let opens = self.w.m.st == St::Disc && !self.cfg.as_client && !self.w.want_close;
+                let opens = self.w.m.st == St::Disc && !self.acting_client && !self.w.want_close;
                 if !self.peer_up() && !opens {
                     return;
                 }
@@ -861,6 +871,30 @@ impl Solo {
             }
             Op::SetChunk { n } => {
                 self.chunk = *n;
+            }
+            Op::SwapSide => {
+                if self.cfg.role == Role::Any && self.w.m.st == St::Disc && !self.w.want_close {
+                    self.acting_client = !self.acting_client;
+                    self.w.stats.hit("any_role_swapped_side");
+                }
+            }
+            Op::Regulate { topic, alias } => {
+                if v != 5 || self.w.m.ver != 5 {
+                    return;
+                }
+                let mut p = Pkt::new(5, PUBLISH);
+                p.qos = 1;
+                p.id = Some(1);
+                p.payload = b"r".to_vec();
+                if alias & 0x80 != 0 {
+                    p.props.push(Prop::TopicAlias((alias & 0x7f) as u16));
+                } else {
+                    p.topic = TOPICS[*topic as usize % TOPICS.len()].into();
+                    if *alias != 0 {
+                        p.props.push(Prop::TopicAlias(*alias as u16));
+                    }
+                }
+                self.w.regulate(&p);
             }
             Op::SetAlt { on } => {
                 if self.w.m.st == St::Disc {
@@ -1059,6 +1093,9 @@ pub fn gen_op(s: &Solo, r: &mut Rng, prof: &GenProfile) -> Op {
             if x < 96 {
                 return if r.chance(1, 2) { Op::Sub } else { Op::Acquire };
             }
+            if x < 97 && m.conn_no > 0 && cfg.role == Role::Any && cfg.ver != Ver::Undet {
+                return Op::SwapSide;
+            }
             if x < 98 && m.conn_no > 0 {
                 return match r.below(3) {
                     0 => Op::SetAlt { on: s.alt != 1 },
@@ -1126,14 +1163,14 @@ pub fn gen_op(s: &Solo, r: &mut Rng, prof: &GenProfile) -> Op {
             Op::Pub { qos, topic, alias, pad, fail }
         }
         1 => {
-            if cfg.as_client {
+            if s.acting_client {
                 if r.chance(1, 2) { Op::Sub } else { Op::Unsub }
             } else {
                 Op::PeerSimple { kind: if r.chance(1, 2) { SUBSCRIBE } else { UNSUBSCRIBE } }
             }
         }
         2 => {
-            if cfg.as_client {
+            if s.acting_client {
                 if r.chance(1, 2) { Op::Ping } else { Op::PeerSimple { kind: PINGRESP } }
             } else {
                 Op::PeerSimple { kind: PINGREQ }
@@ -1178,9 +1215,11 @@ pub fn gen_op(s: &Solo, r: &mut Rng, prof: &GenProfile) -> Op {
             1 => Op::Advance { ms: r.range(1, 5000) },
             2 => Op::SetChunk { n: if cfg.f_chunk { *r.pick(&[0u16, 1, 2, 3, 7]) } else { 0 } },
             3 => Op::AppAnswer,
-            4 if v5 => {
-                if r.chance(1, 2) { Op::Auth } else { Op::PeerSimple { kind: AUTH } }
-            }
+            4 if v5 => match r.below(3) {
+                0 => Op::Auth,
+                1 => Op::PeerSimple { kind: AUTH },
+                _ => Op::Regulate { topic: r.below(3) as u8, alias: *r.pick(&[0u8, 1, 2, 0x81, 0x82, 0x83]) },
+            },
             _ => Op::AppAnswer,
         },
         13 => {
